@@ -239,7 +239,8 @@ func foldBin(op token.Token, a, b AV) AV {
 			return AV{}
 		}
 		return avBool(constant.Compare(a.C, op, b.C))
-	case token.ADD, token.SUB, token.MUL, token.AND, token.OR, token.XOR, token.AND_NOT:
+	case token.AND, token.OR, token.XOR, token.AND_NOT:
+		// (ADD/SUB/MUL are deliberately not folded: loop counters would unroll forever)
 		if a.C.Kind() == b.C.Kind() && (a.C.Kind() == constant.Int || (a.C.Kind() == constant.String && op == token.ADD)) {
 			return AV{K: KConst, C: constant.BinaryOp(a.C, op, b.C)}
 		}
